@@ -141,6 +141,7 @@ def r2_skip_test(ctx):
     """The skip test as a quantifier over the open blocks with a per-block predicate, in either spelling
     (`for b in self.state: ... return True` / `return any(P(b) for b in self.state)`); the predicate is evaluated
     on resolved paths under (true clauses so far, value of the current clause)."""
+    K.identity_of_values(ctx, ['src/scinumtools/dip/datatypes', 'src/scinumtools/dip/solvers', 'src/scinumtools/dip/lists/list_branching.py'], 'the truth of a condition is decided by value, not by object identity')
     from ..flowexpr import consistent, explore, paths, truth
     fn = ctx.fn(BR, "BranchingList.false_case")
     c = ctx.repo.cls(BR, "BranchingList")
@@ -369,7 +370,17 @@ def r4_close_before_skip(ctx):
         st = st._parent
     guard = st._parent if isinstance(st._parent, ast.If) else None
     in_loop_top = (guard in lp.body) if guard is not None else (st in lp.body)
-    ctx.check(in_loop_top, DIP, "DIP.parse", "the closing step is not nested under the skip test or the node kind chain")
+    what = "the closing step is not nested under the skip test or the node kind chain"
+    anc, under_skip = st._parent, False
+    while anc is not None and anc is not lp:
+        if isinstance(anc, ast.If) and "false_case" in norm(anc.test):
+            under_skip = True
+        anc = getattr(anc, "_parent", None)
+    if under_skip:
+        ctx.violated(DIP, "DIP.parse", what, detail="close_by_indent is reached only through a test of false_case()",
+                     expected="the blocks a line has left are closed before it is asked whether the line is skipped")
+    else:
+        ctx.form(in_loop_top, DIP, "DIP.parse", what)
     # the lines excluded from closing are exactly those excluded from the hierarchy
     reg = [x for x in ast.walk(lp) if isinstance(x, ast.Call) and norm(x.func) == "target.hierarchy.register"]
     excl_h = norm(reg[0].args[1]) if reg and len(reg[0].args) > 1 else None
@@ -400,6 +411,7 @@ def r4_close_before_skip(ctx):
             if sc is None or sh is None:
                 ctx.unrecognised(DIP, "DIP.parse", "closing guard", f"cannot evaluate {excl_c} / {excl_h}")
             else:
+                _named_kinds_close(ctx, sc)
                 ctx.check(set(sc) == set(sh), DIP, "DIP.parse", "every line kind that takes part in the hierarchy also closes the blocks it has left",
                           detail={"excluded_from_closing": sorted(sc), "excluded_from_hierarchy": sorted(sh)},
                           expected="the same exclusion list (a group header de-indents like any other node)")
@@ -461,6 +473,41 @@ def r4_close_before_skip(ctx):
     # the clause indent is recorded when the clause is registered
     sc = ctx.fn(BR, "BranchingList.solve_case")
     ctx.form("indent=node.indent" in norm(sc).replace(" ", ""), BR, "BranchingList.solve_case", "every clause records the indentation of its keyword")
+
+
+def _named_kinds_close(ctx, exempt):
+    """Line kinds recognised after the name part (`parser.part_name` in the recogniser's step list) are named nodes:
+    they stand in the indentation hierarchy, so a de-indented one ends the clauses it has left.  None of their keywords
+    may be on the list of kinds exempt from closing."""
+    fn = ctx.fn(DIP, "DIP._determine_node")
+    steps = next((a.value for a in ast.walk(fn) if isinstance(a, ast.Assign) and norm(a.targets[0]) == "steps" and isinstance(a.value, ast.List)), None)
+    what = "no named node kind is exempt from closing the clauses it has left"
+    if steps is None:
+        ctx.form(False, DIP, "DIP._determine_node", what, detail="step list not found")
+        return
+    names = [norm(e) for e in steps.elts]
+    if "parser.part_name" not in names:
+        ctx.form(False, DIP, "DIP._determine_node", what, detail="parser.part_name not in the step list")
+        return
+    after = [n.split(".")[0] for n in names[names.index("parser.part_name") + 1:] if n.endswith(".is_node")]
+    mod = ctx.repo.module(DIP)
+    kws = {}
+    for cname in after:
+        r = ctx.repo.resolve(mod, cname)
+        try:
+            cmod, cdef = r[0], r[2]
+            kw = ctx.repo.class_attr(cmod, cdef, "keyword")
+            kws[cname] = Evaluator(ctx.repo, cmod).ev(kw[1])
+        except Exception:
+            kws[cname] = None
+    if not after or None in kws.values():
+        ctx.form(False, DIP, "DIP._determine_node", what, detail={"classes": after, "keywords": kws})
+        return
+    bad = sorted(set(exempt) & set(kws.values()))
+    if bad:
+        ctx.violated(DIP, "DIP", what, detail={"exempt": sorted(exempt), "named kinds": sorted(set(kws.values()))}, expected=f"{bad} not exempt")
+    else:
+        ctx.holds(DIP, "DIP", what, detail=sorted(set(kws.values())))
 
 
 def _subst_self(node, base):
